@@ -342,6 +342,10 @@ func genCodecHarnesses(c *CheckCtx, prop string) error {
 		{"Timestamp_Encode_int64millis", "verifTimestampInt", "C11 C12 C13"},
 		{"Decimal", "verifDecimal", "C11 C12 C13"}, {"Decimal_Null", "verifDecimalNull", "C14"},
 		{"Varint_SpecTable", "verifVarintSpecTable", "C12"},
+		{"List", "verifList", "C11 C12 C14"}, {"List_DecodeSpecBytes", "verifListDecodeSpec", "C12"},
+		{"Map", "verifMap", "C11 C12 C14"}, {"Tuple", "verifTuple", "C11 C12 C14"}, {"Udt", "verifUdt", "C11 C12 C14"},
+		{"math_addExact", "verifMathAddExact", "C11 C13"}, {"math_multiplyExact_by1000", "verifMathMultiplyExact1000", "C11 C13"},
+		{"math_floorDivMod_by1000", "verifMathFloor1000", "C13"}, {"math_floorDivMod_by86400", "verifMathFloor86400", "C13"},
 	}
 	for _, sc := range scalars {
 		if wrappers && strings.Contains(sc.props, prop) {
